@@ -155,6 +155,21 @@ Theorem C25_refuted_update_response_forever :
 Proof. exact c25_forever_apiupdate. Qed.
 Print Assumptions C25_refuted_update_response_forever.
 
+(* The loop's only wait sites are the four above: the handler of ANY item without loop-side extension data runs to
+   completion in every state.  In particular an abort never waits, however many aborts precede it and whether or not
+   the executor drains its signal slot (SignalSendNonBlocking: a signal for a running response is dropped when the
+   one-slot channel is full). *)
+Theorem C25_handlers_without_extensions_complete : forall s it rest,
+  item_loop_ext it = 0 -> loop (handle s it rest) = LRun rest.
+Proof. exact handle_no_ext_completes. Qed.
+Print Assumptions C25_handlers_without_extensions_complete.
+
+Theorem C25_abort_never_waits : forall s p r rest,
+  loop (handle s (ICancel p r) rest) = LRun rest /\ loop (handle s (IApiCancel r) rest) = LRun rest /\
+  loop (handle s (INetErr p r) rest) = LRun rest.
+Proof. intros; repeat split; apply handle_no_ext_completes; reflexivity. Qed.
+Print Assumptions C25_abort_never_waits.
+
 (* PeerTableLockNotHeldAcrossWait, the fact about peermanager the theorems above rest on: a write to the message
    manager's peer table (Connected, Disconnected, creation of a queue, a queue's shutdown callback) is enabled in
    every state and changes nothing, because GetProcess returns before any reservation can wait.  All theorems
@@ -203,6 +218,17 @@ Example C25_table_writes_while_parked :
   model_verdict {| sc_cfg := c1;
                    sc_msgs := [EvMsg [INew 1 10 0 true false [(600, 0); (600, 0)]]; EvPeerTable 4; EvPeerTable 3;
                                EvMsg [INew 5 30 0 true false [(50, 0)]]; EvPeerTable 5; EvMsg wit_probe];
+                   sc_probe_peer := 2; sc_probe_rid := 20; sc_api_sites := [];
+                   sc_obs_accepted := true; sc_obs_answered := true; sc_obs_answered_after := true |} = (true, true, true).
+Proof. vm_compute. reflexivity. Qed.
+
+(* Repeated aborts of mixed kinds for a response whose executor is parked on the stalled peer's reservation (it does not
+   drain its signal slot): the loop goes on, peer 2 is answered. *)
+Example C25_aborts_while_parked :
+  let c1 := {| c_workers := 2; c_cap := 1; c_maxtotal := 100000; c_maxpeer := 1000; c_stalled := [1] |} in
+  model_verdict {| sc_cfg := c1;
+                   sc_msgs := [EvMsg [INew 1 10 0 true false [(600, 0); (600, 0)]]; EvMsg [ICancel 1 10]; EvMsg [IApiCancel 10];
+                               EvMsg [INetErr 1 10]; EvMsg [ICancel 1 10]; EvMsg wit_probe];
                    sc_probe_peer := 2; sc_probe_rid := 20; sc_api_sites := [];
                    sc_obs_accepted := true; sc_obs_answered := true; sc_obs_answered_after := true |} = (true, true, true).
 Proof. vm_compute. reflexivity. Qed.
